@@ -15,6 +15,12 @@ DUMP_K = {"quick": 5000, "thorough": 60000}
 DUMP_SHARDS = {4: 1, 5: 4}   # N -> number of tasks the enumeration is spread over (by first token)
 COVER_NMAX = {"quick": 10, "thorough": 14}
 TIMEOUT_MS = {"quick": 120_000, "thorough": 600_000}
+ALPHABETS = {   # literal text / terminal names; resolved against the live grammar's terminals
+    "ternary-logic": ["IDENT", "?", ":", "||", "&&", "!"],
+    "arith-rel": ["IDENT", "INT_LIT", "+", "-", "*", "/", "%", "<", "==", "in", "!"],
+    "member-unary": ["IDENT", "INT_LIT", "-", "!", ".", "(", ")", "[", "]", "+"],
+}
+ALPHA_N = {"quick": (8, 9, 10), "thorough": (11, 12)}
 SEED = int(os.environ.get("VERIF_SEED", "0") or 0)
 DUMP_LITERALS = ("INT_LIT", "STRING_LIT", "BOOL_LIT", "NULL_LIT")
 BOUNDS = {
@@ -57,7 +63,15 @@ def tasks(tier):
         parts = N if N >= SPLIT_FROM else 1
         ts += [{"q": "structure", "N": N, "tier": tier, "part": [k, parts]} for k in range(parts)]
         ts += [{"q": q, "N": N, "tier": tier} for q in ("language", "ambiguity")]
+    # longer words over small operator alphabets (nested ?:, operator triples with unary/member chains): cheap because
+    # the token variables range over a few terminals only
+    for name, alpha in ALPHABETS.items():
+        for N in ALPHA_N[tier]:
+            if N > NMAX[tier]:
+                ts.append({"q": "structure", "N": N, "tier": tier, "alphabet": name})
+                ts.append({"q": "language", "N": N, "tier": tier, "alphabet": name})
     ts.append({"q": "cover", "N": COVER_NMAX[tier], "tier": tier})
+    ts.append({"q": "dumpfam", "N": 7, "tier": tier})
     for N in range(1, DUMP_NMAX[tier] + 1):
         of = DUMP_SHARDS.get(N, 1)
         ts += [{"q": "dump", "N": N, "tier": tier, "part": [k, of]} for k in range(of)]
@@ -119,17 +133,27 @@ def _funcs(real):
 def run_task(task, kf):
     from ..cfgsat import encode as E
     real = E.Real()
-    res = _result(f"C06/{task['q']}/N={task['N']}" + ("/part=%d.%d" % tuple(task["part"]) if task.get("part", [0, 1])[1] > 1 else ""))
+    res = _result(f"C06/{task['q']}/N={task['N']}" + ("/part=%d.%d" % tuple(task["part"]) if task.get("part", [0, 1])[1] > 1 else "")
+                  + (f"/alphabet={task['alphabet']}" if task.get("alphabet") else ""))
     res["funcs"] = _funcs(real)
     if real.conflicts:
         res["info"]["lalr_conflicts"] = real.conflicts[:10]
     {"structure": _structure, "language": _language, "ambiguity": _ambiguity, "dump": _dump, "cover": _cover,
-     "lexer": _lexer}[task["q"]](E, real, task, res, kf)
+     "lexer": _lexer, "dumpfam": _dumpfam}[task["q"]](E, real, task, res, kf)
     res["solver_s"] = round(res["solver_s"], 3)
     return [res]
 
 
 # ----------------------------------------------------------------------------- q1: same operator structure
+def _alphabet(real, P, task):
+    """constraints restricting every token to the task's alphabet (none for unrestricted tasks)"""
+    name = task.get("alphabet")
+    if not name:
+        return []
+    ids = [P.tid[real.pat2name.get(a, a)] for a in ALPHABETS[name] if real.pat2name.get(a, a) in P.tid]
+    return [z3.Or([w == i for i in ids]) for w in P.W]
+
+
 def _structure(E, real, task, res, kf):
     N, tier = task["N"], task["tier"]
     P = E.Problem(real, N)
@@ -140,7 +164,7 @@ def _structure(E, real, task, res, kf):
     diff = z3.Or([z3.Xor(Fg.get(k, F), Fr.get(k, F)) for k in keys]) if keys else F
     ndefs = len(P.eg.defs) + len(P.er.defs)
     res["transitions"] = ndefs
-    both = [P.base, P.eg.defs, P.er.defs, [P.eg.acc, P.er.acc]]
+    both = [P.base, P.eg.defs, P.er.defs, [P.eg.acc, P.er.acc], _alphabet(real, P, task)]
     r, m = _query(res, tier, "q1 exists w in L(G) & L(R) with facts_G(w) != facts_R(w)", N, ndefs, *both, [diff])
     res["samples"][-1]["operator_facts"] = len(keys)
     _obligation(res, "C06/structure", r)
@@ -185,7 +209,7 @@ def _language(E, real, task, res, kf):
     P = E.Problem(real, N)
     ndefs = len(P.eg.defs) + len(P.er.defs)
     res["transitions"] = ndefs
-    defs = [P.base, P.eg.defs, P.er.defs]
+    defs = [P.base, P.eg.defs, P.er.defs, _alphabet(real, P, task)]
     r, m = _query(res, tier, "q2 exists w in L(R) \\ L(G)", N, ndefs, *defs, [P.er.acc, z3.Not(P.eg.acc)])
     _obligation(res, "C06/ref-accepted-real-rejects", r)
     if m is not None:
@@ -307,6 +331,35 @@ def _dump(E, real, task, res, kf):
     res["samples"] = res["samples"][:2] + res["samples"][-1:]
     res["budget_exhausted"] = r == "sat"
     res["info"]["dump"] = d.close(r == "unknown", {"N": N, "part": f"{part + 1}/{of}", "language_exhausted": r == "unsat"})
+
+
+def _dumpfam(E, real, task, res, kf):
+    """dump round trip on a targeted word family (enumeration of solver models): a parenthesised atom or negated atom
+    followed by member / index / call / object suffixes, e.g. `( 1 ) . f ( )`, `( - a ) [ 0 ]`"""
+    tier = task["tier"]
+    res["funcs"] += ["celpy/celparser.py:tree_dump", "celpy/celparser.py:DumpAST"]
+    drop = [t for t in real.terms if t.endswith("_LIT") and t not in DUMP_LITERALS + ("UINT_LIT", "FLOAT_LIT")]
+    total = 0
+    for N in range(4, task["N"] + 1):
+        P = E.Problem(real, N, want_ref=False)
+        res["transitions"] += len(P.eg.defs)
+        lp, rp, mn = P.tid[real.pat2name["("]], P.tid[real.pat2name[")"]], P.tid[real.pat2name["-"]]
+        shape = z3.Or(z3.And(P.W[0] == lp, P.W[2] == rp), z3.And(P.W[0] == lp, P.W[1] == mn, P.W[3] == rp) if N > 4 else z3.BoolVal(False))
+        small = [P.tid[real.pat2name.get(a, a)] for a in ("(", ")", "-", "INT_LIT", "IDENT", "STRING_LIT", ".", "[", "]", "{", "}", "+")]
+        s = _solver(tier, P.base, P.eg.defs, [P.eg.acc, shape], [w != P.tid[t] for w in P.W for t in drop],
+                    [z3.Or([w == i for i in small]) for w in P.W])
+        d = _Dump(real, P, res, kf)
+        r = "sat"
+        while d.words < 1500:
+            r = _check(res, s, "next word `( atom ) suffix` of L(G) (blocking clauses)", N, len(P.eg.defs))
+            if r != "sat":
+                break
+            m = s.model()
+            d(m)
+            s.add(P.block(m))
+        total += d.words
+        res["info"].setdefault("dump_families", []).append(d.close(r == "unknown", {"N": N, "family": "( [-] atom ) suffix", "language_exhausted": r == "unsat"}))
+    res["samples"] = res["samples"][:2] + res["samples"][-1:]
 
 
 def _cover(E, real, task, res, kf):
